@@ -102,15 +102,15 @@ def report(ctx, bad):
 
 
 def run(ctx):
+    import eng_tree
+
+    eng_tree.freeze_tree(ctx)
     import eng_engine as E
     import eng_pool
 
     ctx.level = "model_checking"
     procs = ctx.pick(6, 14)
     # 1. model + exhaustive histories
-    import eng_tree
-
-    tree0 = eng_tree.tree_state()
     cfg = ctx.pick("Engine.cfg", "Engine_thorough.cfg")
     r, hists = histories_from(ctx, cfg, coverage=ctx.quick, timeout=ctx.pick(900, 3000), heap="6g")
     if not ctx.quick:  # all length-2 histories over the full pool as well
@@ -149,7 +149,6 @@ def run(ctx):
     allh = hists + sim
     obs = E.run_histories(allh, ctx.workdir, procs)
     bad, nsteps, ndigest = compare(allh, obs, refs)
-    eng_tree.require_unchanged(tree0)
     ctx.log(f"replayed {len(allh)} histories = {nsteps} distinct session steps, {ndigest} HUGR comparisons, "
             f"{len(bad)} mismatching fields")
     report(ctx, bad)
@@ -191,26 +190,37 @@ def run(ctx):
 
 
 def replay(ctx, data):
+    import eng_tree
+
+    eng_tree.freeze_tree(ctx)
+    import eng_canon
     import eng_engine as E
 
     path = data["replay"]["history"]
     print("history:", path)
     got = E.session_text(path)
-    ref = E.reference(*path[-1].split(":", 1)) if not path[-1].startswith("check") else None
-    print("last step in session:", {k: got[k] for k in ("outcome", "digest", "state") if k in got})
-    if ref:
-        print("same call in a fresh process:", {k: ref[k] for k in ("outcome", "digest", "state") if k in ref})
-        if got.get("digest") != ref.get("digest"):
-            import eng_canon
-
-            reft = E.reference("compile", path[-1].split(":", 1)[1], want_text=True)
-            print(eng_canon.explain_diff(reft.get("text", ""), got.get("text", "")))
-            ctx.violation(data.get("key", "replay"), "HUGR still differs", data["replay"])
+    op, d = path[-1].split(":", 1)
+    ref = E.reference(op, d, want_text=True)
+    show = lambda r: {k: r[k] for k in ("outcome", "digest", "state") if k in r}  # noqa: E731
+    print("last call at the end of the session:", show(got))
+    print("same call alone in a fresh process: ", show(ref))
+    if got["outcome"] != ref["outcome"]:
+        ctx.violation(data.get("key", "replay"), f"outcome still differs: {got['outcome']} vs fresh {ref['outcome']}",
+                      data["replay"])
+    elif got.get("digest") != ref.get("digest"):
+        print(eng_canon.explain_diff(ref.get("text", ""), got.get("text", "")))
+        ctx.violation(data.get("key", "replay"), "HUGR still differs from the fresh-session one", data["replay"])
+    else:
+        print("outcome and canonical HUGR agree with the fresh session "
+              "(engine-state expectations come from the spec: run the check to compare them)")
 
 
 def selftest(ctx):
     import copy
 
+    import eng_tree
+
+    eng_tree.freeze_tree(ctx)
     import eng_engine as E
     import eng_session as S
 
